@@ -19,8 +19,10 @@ import (
 	"github.com/blues/jsonata-go/jparse"
 	"pgregory.net/rapid"
 
+	"verif/harness/internal/ast"
 	"verif/harness/internal/port"
 	"verif/harness/internal/stats"
+	"verif/harness/internal/val"
 )
 
 // ---- the operator table of the statement
@@ -430,6 +432,7 @@ func init() {
 	registerReplay("TestC04_PairsAndTriples", replay)
 	registerReplay("TestC04_RandomChains", replay)
 	registerReplay("TestC04_Findings", replay)
+	registerReplay("TestC04_ParenthesesOverride", diffReplay)
 	registerReplay("TestC04_Semantic", func(raw json.RawMessage) string {
 		var c c04Sem
 		if err := json.Unmarshal(raw, &c); err != nil {
@@ -653,6 +656,92 @@ func TestC04_Semantic(t *testing.T) {
 		rec.Eval(2)
 		if m != "" && rec.Fail(c, m) {
 			rt.Fatalf("%s", m)
+		}
+	})
+}
+
+// TestC04_ParenthesesOverride: parentheses override the grouping of steps,
+// predicates and operators. The generator builds the tree (with explicit
+// block nodes where the text has parentheses), the reference evaluator
+// evaluates that tree, the library evaluates the printed text.
+func TestC04_ParenthesesOverride(t *testing.T) {
+	rec := begin(t, "C04", "rapid: name paths of 1..3 steps with 0..2 predicates per step (comparisons, positions, index arrays), with parentheses around any sub-path, predicate head or operand and further predicates / steps / arithmetic applied to the parenthesised part, over a document with arrays at every level; oracle = reference evaluator on the generator's tree (which knows the grouping) vs the library on the printed text; non-trivial = at least one parenthesised sub-expression followed by a predicate or step; distinct by program text")
+	defer finish(t, rec)
+	doc := val.MustJSON(`{"a":[{"b":[{"c":1,"d":[5,6]},{"c":2,"d":[7]}],"n":1},{"b":[{"c":3,"d":[8,9]},{"c":4,"d":[]}],"n":2}],"x":10,"y":[3,1,2]}`)
+	rapidRun(t, rec, 15000, 250000, func(rt *rapid.T) {
+		name := func(l string) *ast.Node { return ast.NameN(rapid.SampledFrom([]string{"a", "b", "c", "d", "n", "y"}).Draw(rt, l)) }
+		filter := func(l string) *ast.Node {
+			switch rapid.IntRange(0, 5).Draw(rt, l) {
+			case 0:
+				return ast.NumN(float64(rapid.IntRange(-1, 2).Draw(rt, l+"i")))
+			case 1:
+				return ast.BinN(">", ast.NameN("c"), ast.NumN(float64(rapid.IntRange(0, 3).Draw(rt, l+"t"))))
+			case 2:
+				return ast.ArrN(ast.NumN(0), ast.NumN(float64(rapid.IntRange(0, 2).Draw(rt, l+"j"))))
+			case 3:
+				return ast.BinN("=", ast.NameN("n"), ast.NumN(float64(rapid.IntRange(1, 2).Draw(rt, l+"n"))))
+			case 4:
+				return ast.BinN(">", ast.VarN(""), ast.NumN(float64(rapid.IntRange(0, 8).Draw(rt, l+"v"))))
+			}
+			return ast.NameN("d")
+		}
+		parens := 0
+		var build func(depth int) *ast.Node
+		build = func(depth int) *ast.Node {
+			var steps []*ast.Node
+			n := rapid.IntRange(1, 3).Draw(rt, "steps")
+			for i := 0; i < n; i++ {
+				var s *ast.Node = name("step")
+				if depth > 0 && rapid.IntRange(0, 3).Draw(rt, "sub") == 0 {
+					s = ast.BlockN(build(depth - 1))
+					parens++
+				}
+				for k, nf := 0, rapid.IntRange(0, 2).Draw(rt, "nf"); k < nf; k++ {
+					s = ast.PredN(s, filter("f"))
+				}
+				steps = append(steps, s)
+			}
+			var p *ast.Node
+			if len(steps) == 1 {
+				p = steps[0]
+			} else {
+				p = ast.PathN(steps...)
+			}
+			if rapid.IntRange(0, 2).Draw(rt, "wrap") == 0 {
+				p = ast.BlockN(p)
+				parens++
+				for k, nf := 0, rapid.IntRange(1, 2).Draw(rt, "nfw"); k < nf; k++ {
+					p = ast.PredN(p, filter("fw"))
+				}
+				if rapid.Bool().Draw(rt, "thenStep") {
+					p = ast.PathN(p, name("after"))
+				}
+			}
+			return p
+		}
+		prog := build(2)
+		if rapid.IntRange(0, 3).Draw(rt, "arith") == 0 {
+			// (x op y) op z with parentheses on either side
+			op1 := rapid.SampledFrom([]string{"-", "/", "%", "+", "*"}).Draw(rt, "op1")
+			op2 := rapid.SampledFrom([]string{"-", "/", "%", "+", "*"}).Draw(rt, "op2")
+			a, b, c := ast.NameN("x"), ast.NumN(float64(rapid.IntRange(1, 7).Draw(rt, "k1"))), ast.NumN(float64(rapid.IntRange(1, 7).Draw(rt, "k2")))
+			if rapid.Bool().Draw(rt, "rightGrouped") {
+				prog = ast.BinN(op1, a, ast.BlockN(ast.BinN(op2, b, c)))
+			} else {
+				prog = ast.BinN(op2, ast.BinN(op1, a, b), c)
+			}
+			parens++
+		}
+		c := mkDiff(prog, doc, true)
+		p, r, m, skip := diffRun(c)
+		if skip {
+			rec.Class("skipped_" + r.Why)
+			return
+		}
+		rec.Case(c.Text, parens > 0, diffSample(c, p))
+		rec.Class("outcome_" + p.Kind)
+		if m != "" && rec.Fail(c, m) {
+			rt.Fatalf("%s\n  expr: %s", m, c.Text)
 		}
 	})
 }
